@@ -89,7 +89,30 @@ class ExpectationValues:
         return cls(expectation_values, correlations, estimator_covariances)
 
     def __eq__(self, __o: object) -> bool:
-        return self.__dict__ == __o.__dict__
+        if not isinstance(__o, ExpectationValues):
+            return NotImplemented
+
+        def _arrays_equal(array, other_array):
+            # Element-wise comparison (with broadcasting, as `==` on the attribute
+            # dictionaries used to do for single-element arrays).
+            try:
+                return bool(np.all(np.asarray(array) == np.asarray(other_array)))
+            except ValueError:
+                return False
+
+        def _frames_equal(frames, other_frames):
+            if frames is None or other_frames is None:
+                return frames is None and other_frames is None
+            return len(frames) == len(other_frames) and all(
+                _arrays_equal(frame, other_frame)
+                for frame, other_frame in zip(frames, other_frames)
+            )
+
+        return (
+            _arrays_equal(self.values, __o.values)
+            and _frames_equal(self.correlations, __o.correlations)
+            and _frames_equal(self.estimator_covariances, __o.estimator_covariances)
+        )
 
 
 def save_expectation_values(
